@@ -208,8 +208,8 @@ def gen_att_name(rng, tame, refused_ok=False, memo=None):
     r = rng.random()
     if r < 0.5:
         return tame
-    if refused_ok and r < 0.64:
-        if memo and rng.random() < 0.6:
+    if refused_ok and r < (0.78 if memo else 0.64):
+        if memo and rng.random() < 0.7:
             return rng.choice(memo)            # the same refused name again (by whichever thread comes next)
         nm = rng.choice(ATT_NAMES_REFUSED[:3] if rng.random() < 0.6 else ATT_NAMES_REFUSED)
         if memo is not None:
@@ -419,6 +419,8 @@ def gen_ops(rng, chaos=0.05):
                 out += window_ops(tid, depth, 1)
             elif depth < 1:
                 out += spawn(tid, depth)
+        if rng.random() < 0.15:
+            out.append({"tid": tid, "op": "endStepDeprecated"})     # `lcc.end_step(d)` as old code wrote it: does nothing
         out.append({"tid": tid, "op": "detachedExit"})
         if rng.random() < 0.75:
             out.append(simple_op(tid, rng.random()))
@@ -459,6 +461,9 @@ def gen_ops(rng, chaos=0.05):
                 out.append(set_step(tid, "step%d" % rng.randint(0, 3)))
             elif r < 0.72:
                 out.append(simple_op(tid, rng.random()))
+                if out[-1]["op"] == "attach" and out[-1]["file"] in refused_used and rng.random() < 0.5:
+                    # a retry under the very same name (what a test does when saving failed), or the next item of a loop
+                    out.append(dict(out[-1]))
             elif r < 0.82:
                 out += window_ops(tid, depth)
             elif r < 0.88:
@@ -596,7 +601,7 @@ def _window_corpus():
         # C07-11: the block "closed" its step, the log was fired outside any step)
         wrap(test(1, "t1", 1, [enter(1, "d"), leave(1), log(1, "after")])),
         wrap(test(1, "t1", 1, [step(1, "a"), log(1, "x"), enter(1, "d"), log(1, "inside"), leave(1), log(1, "after"),
-                               enter(1, "e"), leave(1), enter(1, "e2"), step(1, "inner"), leave(1), att(1, "f.txt"),
+                               enter(1, "e"), {"tid": 1, "op": "endStepDeprecated"}, log(1, "still in e"), leave(1), enter(1, "e2"), step(1, "inner"), leave(1), att(1, "f.txt"),
                                {"tid": 1, "op": "threadCreate", "new": 10}, {"tid": 10, "op": "threadRun"},
                                enter(10, "in thread"), leave(10), log(10, "after in thread"), {"tid": 10, "op": "threadEnd"}])),
         # the step changes inside the block, after a log: a's end, b's start (flushed at exit), attachment under b
@@ -779,6 +784,11 @@ class SessionStream(C.Stream):
                     cm = S.detached_step(op["desc"])
                     cm.__enter__()
                 open_det.setdefault(op["tid"], []).append(cm)
+            elif k == "endStepDeprecated":
+                # `lcc.end_step(step)`: "deprecated since version 1.4.5, it actually does nothing"
+                with warnings.catch_warnings():
+                    warnings.simplefilter("ignore")
+                    S.end_step(op.get("desc", "whatever"))
             elif k == "detachedExit":
                 stack = open_det.get(op["tid"])
                 if stack:                       # (leaving a block that was never entered is not expressible: nothing happens)
@@ -1016,6 +1026,8 @@ class SessionStream(C.Stream):
         # `with lcc.detached_step(..)` blocks, and what the thread does right after leaving one
         ops = case["ops"]
         for i, op in enumerate(ops):
+            if op["op"] == "endStepDeprecated":
+                f.append("deprecated-end_step")
             if op["op"] == "detachedExit":
                 f.append("detached_step")
                 nxt = next((o for o in ops[i + 1:] if o["tid"] == op["tid"]), None)
